@@ -19,7 +19,7 @@ meta = {
   "origin": "independent sub-agent given only the property text and a scratch worktree",
   "breaks": breaks,
   "needs_to_manifest": needs,
-  "demo": {"file": os.path.basename(demo), "copy_into": pkgdir, "run": f"go test -count=1 -run TestSeed ./{pkgdir}/"},
+  "demo": {"file": os.path.basename(demo), "copy_into": pkgdir, "run": f"go test -count=1 -run 'Test_?Seed' ./{pkgdir}/"},
   "confirmed_by_me": {
      "how": "seed_verify.sh in a scratch worktree: git apply patch.diff; go build ./...; go test -count=1 ./... (existing suite); demo with the change; git apply -R; demo without the change",
      "build_with_change": "ok",
